@@ -60,7 +60,7 @@ def m_transport_fetch(I, st, fr, callee, args, dty, dest, ret_bb):
 def op_transport_fetch(I, st, fut):
     url = fut.d['url']; key = url_key(url)
     script = st.env['transport'](st, key)
-    st.events.append(('fetch', key))
+    st.events.append(('fetch', key, list(url.d['rel']), script))
     stream = Obj('stream', skind='script', pos=0, script=script, url=key)
     alts = []
     fe = script.get('fetch_err')
